@@ -10,7 +10,14 @@ Case (driver "view"):
                                                null/absent: the view is built with TorConfig.from_protocol(proto);
                                                a list: TorConfig() without a protocol, these options assigned locally
                                                under the given spelling, then attach_protocol(proto) (what launch() does)
+   "boot_events": [{"at": k, "changes": [[name, null | [lines...]], ...]}, ...],
+                                               if non-empty the attach is answered one command at a time and Tor emits
+                                               this CONF_CHANGED just before it answers the k-th command of the attach
+                                               (k >= 1; never before the SETEVENTS was answered; past the end = right after)
    "steps": [{"op": "event", "changes": [[name, null | [lines...]], ...]},     another controller changed these
+             {"op": "edit", "o": name, "v": element, "case": k},               list option: read, append (left unsaved)
+             {"op": "assign", "o": name, "v": value, "case": k},               assign (left unsaved)
+             {"op": "save", "accept": bool},                                   save(); the reference Tor accepts / refuses (552)
              {"op": "read", "o": name, "case": k},
              {"op": "edit_save", "o": name, "v": element, "case": k},          list option: read, append, save
              {"op": "assign_save", "o": name, "v": value, "case": k},          scalar or whole list: assign, save
@@ -35,10 +42,13 @@ RULE = ("Hypothesis-generated cases: an option table of 2..8 options over every 
         "without config/defaults support, 'Dependent' or 'Dependant' port entries; the view is attached either with "
         "TorConfig.from_protocol() or (one case in three) as launch() does it: TorConfig() without a protocol, 0..3 "
         "options assigned locally under case-mangled spellings (values equal to what Tor then reports, or different), "
-        "then attach_protocol(); then 1..12 steps of "
+        "then attach_protocol(); in a third of the cases the attach is answered one command at a time with 1..3 "
+        "CONF_CHANGED events from another controller placed between any two answers; then 1..9 chunks of steps: "
         "CONF_CHANGED events (1..3 options each, 0/1/many values, bare key = unset, only real changes are "
         "announced), reads under four spellings of the name, read-append-save on list options, assign-save, "
-        "and socks_endpoint(); with or without Tor echoing our own SETCONFs as CONF_CHANGED. A real TorConfig "
+        "socks_endpoint(), local edits/assignments left unsaved, save() accepted or refused, and (one chunk in four) a "
+        "local change that is still unsaved or was refused when Tor announces a change of the same option; with or "
+        "without Tor echoing our own SETCONFs as CONF_CHANGED. A real TorConfig "
         "is bootstrapped over a causal byte pipe from the reference store and every option is read back after "
         "bootstrap (on the attach route under all four spellings), after every event and after every save. Non-trivial = some list-typed option was changed "
         "by an event and afterwards read, appended to and saved (the tracked-list check ran to completion); "
@@ -56,7 +66,18 @@ ASSUMPTIONS = [
     "CONF_CHANGED names every changed option with all its current values in store order; options whose "
     "value did not change are not announced; a port option is never *emptied* by a foreign event (Tor would "
     "announce that under the Virtual '...PortLines' name, which the statement does not cover)",
-    "events are not generated for an option while a local change to it is unsaved",
+    "while a local change of an option is unsaved (or its save was refused) and no event about it has arrived, a "
+    "read may show Tor's value or the local pending value (C10's latitude); once Tor announces a change of that "
+    "option reads must show the announced value ('subsequent reads return the new values'); the pending local "
+    "change may then still go out with the next save (txtorcon's behaviour) or may have been dropped - both accepted, "
+    "needs_save() either way; after a refused save reads may again show the value that save() tried to set",
+    "after an event replaced a list that has an unsaved in-place edit, further in-place edits of that option are "
+    "not generated until it is saved (which list object they would hit is inherently ambiguous); counted",
+    "in-place edits while an assignment to the same option is pending are not generated (as in C10); "
+    "socks_endpoint() is not called while SocksPort has an unsaved change",
+    "events during the attach: Tor emits them only after it has answered the SETEVENTS that subscribes; each "
+    "GETCONF answer shows the reference store at the moment it is answered; after the attach completes the view "
+    "must equal the store's final values whatever the order of answers and events was",
     "attach_protocol() route: the statement says the view built when attaching reports, for every option Tor "
     "lists, the value Tor returned (unset -> default), so values assigned locally before attaching - equal to "
     "Tor's or not, under any spelling - are expected to be replaced by Tor's and nothing is pending afterwards; "
@@ -939,7 +960,8 @@ MANIFEST = {
             "values unset/empty/one/many, defaults of 0/1/several lines, with and without config/defaults) served "
             "by a reference Tor configuration store over a causal byte pipe to a real TorConfig; then sequences of "
             "CONF_CHANGED events (0/1/many values, bare key = unset), reads under case-mangled names, "
-            "read-append-save and assign-save on the view, socks_endpoint(). Oracle: after bootstrap, after every "
+            "read-append-save and assign-save on the view, socks_endpoint(), unsaved/refused local changes overtaken by "
+            "events, and events delivered between the answers of the attach itself. Oracle: after bootstrap, after every "
             "event and after every save each option reads as reference-parse(declared type, store value or "
             "default); list-typed options are list objects and stay tracked (append => needs_save() => save writes "
             "the whole new list); socks_endpoint() connects to the first (or the named) configured SOCKS entry. "
